@@ -71,6 +71,53 @@ def check_wait_freshness(ctx, rule: str) -> None:
                     t_ += " " + expand(wdefs[x.id], depth + 1)
         return t_
 
+    # quantifier form: the same conditions written as all(...)/any(...) over the waited-for names
+    quant = []  # (universal?, condition, condition-states-the-requirement?)
+    for c in [x for x in walk_local(w.node) if isinstance(x, ast.Call) and dotted(x.func) in ("all", "any") and len(x.args) == 1 and isinstance(x.args[0], (ast.GeneratorExp, ast.ListComp)) and len(x.args[0].generators) == 1 and src(x.args[0].generators[0].iter).endswith(".wait_for")]:
+        par = getattr(c, "_parent", None)
+        neg = False
+        if isinstance(par, ast.UnaryOp) and isinstance(par.op, ast.Not):
+            neg, par = True, getattr(par, "_parent", None)
+        is_all = dotted(c.func) == "all"
+        cond = c.args[0].elt
+        if isinstance(par, ast.Return):
+            # return all(c): requires c of every name; return any(c): one name suffices
+            quant.append((is_all and not neg, cond, True))
+        elif isinstance(par, ast.If) and any(isinstance(s_, ast.Return) and isinstance(s_.value, ast.Constant) and s_.value.value is False for s_ in par.body):
+            # if any(c): return False  -> every name must satisfy not c;   if not all(c): return False -> every name must satisfy c
+            if not is_all and not neg:
+                quant.append((True, cond, False))
+            elif is_all and neg:
+                quant.append((True, cond, True))
+            else:
+                quant.append((False, cond, True))
+
+    def _kinds(cmp_):
+        ops_ = [cmp_.left, cmp_.comparators[0]]
+        return ops_, ["cur" if ("get_version" in expand(o) or ".versions" in expand(o)) and "wait_for_versions" not in expand(o) else "cons" if "wait_for_versions" in expand(o) else None for o in ops_]
+
+    q_fresh = [(u, cnd, pos) for u, cnd, pos in quant for cmp_ in [x for x in ast.walk(cnd) if isinstance(x, ast.Compare) and len(x.ops) == 1] if set(_kinds(cmp_)[1]) == {"cur", "cons"}]
+    q_exist = [(u, cnd, pos) for u, cnd, pos in quant if any(isinstance(x, ast.Compare) and len(x.ops) == 1 and isinstance(x.ops[0], (ast.In, ast.NotIn)) and src(x.comparators[0]).endswith(".values") for x in ast.walk(cnd))]
+    if q_fresh:
+        u, cnd, pos = q_fresh[0]
+        cmp_ = [x for x in ast.walk(cnd) if isinstance(x, ast.Compare) and len(x.ops) == 1 and set(_kinds(x)[1]) == {"cur", "cons"}][0]
+        ops_, kinds = _kinds(cmp_)
+        cur, cons = src(ops_[kinds.index("cur")]), src(ops_[kinds.index("cons")])
+        try:
+            tab = ordering_table(cnd, cur, cons)
+            fresh = {k: (v if pos else not v) for k, v in tab.items()}
+            okq = u and fresh["eq"] is False and fresh["gt"] is True
+            whyq = "every waited-for name must be fresh: current > consumed" if okq else ("one fresh signal suffices (the condition is existential over the waited-for names): a node waiting on several signals re-runs as soon as any of them was produced again, combining this round's values with the previous round's" if not u else f"freshness condition '{src(cnd)}' gives eq->{fresh['eq']}, gt->{fresh['gt']} (expected eq->stale, gt->fresh)")
+            rep.add(rule, f"{w.qname}:comparator", okq, w.loc(), whyq)
+        except NotComparable as e:
+            rep.bad(rule, f"{w.qname}:comparator", w.loc(), f"freshness condition is not a pure version comparison ({e})")
+        first_ok = any(isinstance(n, ast.If) and "is None" in src(n.test) and any(isinstance(s_, ast.Return) and isinstance(s_.value, ast.Constant) and s_.value.value is True for s_ in n.body) for n in walk_local(w.node)) or any(k in expand(ast.parse(cons, mode="eval").body) for k in ("else {}", "or {}", "else dict()"))
+        rep.add(rule, f"{w.qname}:only-on-reexecution", first_ok, w.loc(), "the version comparison applies on re-execution only (first execution returns before it, or compares against the default 0)" if first_ok else "the version comparison also constrains the first execution")
+        if q_exist:
+            ue, cnde, pose = q_exist[0]
+            exist_ok = ue and (("not in" in src(cnde)) != pose)
+            rep.add(rule, f"{w.qname}:existence", exist_ok, w.loc(), "every waited-for name must exist in the state before the node may start" if exist_ok else "the existence condition does not require every waited-for name to be present")
+            return
     tests = []
     for n in walk_local(w.node):
         if isinstance(n, ast.If):
@@ -80,7 +127,9 @@ def check_wait_freshness(ctx, rule: str) -> None:
                 if set(kinds) == {"cur", "cons"}:
                     cur, cons = src(ops_[kinds.index("cur")]), src(ops_[kinds.index("cons")])
                     tests.append(n)
-    if not tests:
+    if q_fresh:
+        pass
+    elif not tests:
         rep.bad(rule, f"{w.qname}:comparator", w.loc(), "comparison of current and consumed wait_for versions not found")
     else:
         t = tests[0]
@@ -117,6 +166,9 @@ def check_wait_freshness(ctx, rule: str) -> None:
             rep.add(rule, f"{w.qname}:only-on-reexecution", ok, w.loc(), "version comparison applies exactly when the node has executed before" if ok else "the version comparison is not applied exactly on re-execution (missing, or under an extra condition such as 'the name holds a signal'): a first run would compare against version 0, or a waiter on a value name re-runs without a new production")
     ex = [n for n in walk_local(w.node) if isinstance(n, ast.If) and " not in " in src(n.test) and "values" in src(n.test) and any(isinstance(s, ast.Return) and isinstance(s.value, ast.Constant) and s.value.value is False for s in n.body)]
     in_loop = bool(ex) and enclosing(ex[0], (ast.For,)) is not None and "wait_for" in src(enclosing(ex[0], (ast.For,)).iter)
+    if not in_loop and q_exist:
+        ue, cnde, pose = q_exist[0]
+        in_loop = ue and (("not in" in src(cnde)) != pose)
     rep.add(rule, f"{w.qname}:existence", in_loop, w.loc(), "every waited-for name must exist in the state before the node may start" if in_loop else "the existence check of waited-for names is missing (a waiter could start before any producer completed)")
 
 
@@ -233,6 +285,25 @@ def run(ctx) -> None:
 
     # ---- R5 ---------------------------------------------------------------------
     check_completions_emit(ctx, "C17.R5")
+    check_wrapper_offers_no_inner_signals(ctx, "C17.R5")
+
+
+def check_wrapper_offers_no_inner_signals(ctx, rule: str) -> None:
+    """A nested run returns values, never sentinels (filter_outputs drops them), so a nested-graph node cannot produce
+    the ordering signals emitted inside it.  It must not *offer* them either: a name listed in its outputs passes the
+    'some node produces it' validation of an outer wait_for — the outer waiter is then accepted and never runs (and a
+    mapping node returns the signal name as a list of None placeholders)."""
+    db, rep = ctx.db, ctx.rep
+    gn = db.cls("nodes.graph_node.GraphNode")
+    init = gn.methods["__init__"]
+    outs = [n for n in walk_local(init.node) if isinstance(n, ast.Assign) and any(src(t) == "self.outputs" for t in n.targets)]
+    defs = {nm: ds[0].value for nm, ds in db.local_defs(init).items() if len(ds) == 1 and getattr(ds[0], "value", None) is not None}
+    exprs = [o.value for o in outs]
+    for _ in range(3):
+        exprs += [defs[x.id] for e in list(exprs) for x in ast.walk(e) if isinstance(x, ast.Name) and x.id in defs and defs[x.id] not in exprs]
+    txt = " ".join(src(e) for e in exprs)
+    filtered = "_get_emit_only_outputs" in txt or "data_outputs" in txt or "emit" in txt.lower() and "not in" in txt
+    rep.add(rule, f"{gn.qname}:offers-no-inner-signals", bool(outs) and filtered, init.loc(), "the wrapper's outputs exclude the wrapped graph's emit-only names" if outs and filtered else "a nested-graph node lists the ordering signals emitted inside it among its outputs although its executor can never produce them: Graph([inner.as_node(), step_b(wait_for='a_done')]) is accepted and step_b never runs; with map_over the result contains 'a_done': [None, None]")
 
 
 def check_block_before_deferral(ctx, rule: str) -> None:
@@ -358,4 +429,7 @@ VARIANTS = [
     Variant("twin-cache-key-emit-names-separately", "src/hypergraph/runners/_shared/caching.py", replace_once(":{node.outputs!r}:", ":{node.outputs[len(node.data_outputs):]!r}:"), set()),
     Variant("consumed-signal-counts-fresh", HP, replace_once("    last_exec = state.node_executions.get(node.name)\n\n    for name in node.wait_for:\n        if name not in state.values:\n            return False\n        # On re-execution, check freshness\n        if last_exec is not None:\n            current_version = state.get_version(name)\n            consumed_version = last_exec.wait_for_versions.get(name, 0)\n            if current_version <= consumed_version:\n                return False\n", "    last_exec = state.node_executions.get(node.name)\n    consumed = last_exec.wait_for_versions if last_exec is not None else {}\n\n    for name in node.wait_for:\n        if name not in state.values:\n            return False\n        if state.get_version(name) < consumed.get(name, 0):\n            return False\n"), {"C17.R1"}),
     Variant("twin-freshness-unguarded-default-zero", HP, replace_once("    last_exec = state.node_executions.get(node.name)\n\n    for name in node.wait_for:\n        if name not in state.values:\n            return False\n        # On re-execution, check freshness\n        if last_exec is not None:\n            current_version = state.get_version(name)\n            consumed_version = last_exec.wait_for_versions.get(name, 0)\n            if current_version <= consumed_version:\n                return False\n", "    last_exec = state.node_executions.get(node.name)\n    consumed = last_exec.wait_for_versions if last_exec is not None else {}\n\n    for name in node.wait_for:\n        if name not in state.values:\n            return False\n        if state.get_version(name) <= consumed.get(name, 0):\n            return False\n"), set()),
+    Variant("twin-freshness-as-all-comprehension", HP, replace_once("    last_exec = state.node_executions.get(node.name)\n\n    for name in node.wait_for:\n        if name not in state.values:\n            return False\n        # On re-execution, check freshness\n        if last_exec is not None:\n            current_version = state.get_version(name)\n            consumed_version = last_exec.wait_for_versions.get(name, 0)\n            if current_version <= consumed_version:\n                return False\n    return True\n", "    last_exec = state.node_executions.get(node.name)\n    consumed = last_exec.wait_for_versions if last_exec is not None else {}\n    if any(name not in state.values for name in node.wait_for):\n        return False\n    return all(state.get_version(name) > consumed.get(name, 0) for name in node.wait_for)\n"), set()),
+    Variant("one-fresh-signal-suffices", HP, replace_once("    last_exec = state.node_executions.get(node.name)\n\n    for name in node.wait_for:\n        if name not in state.values:\n            return False\n        # On re-execution, check freshness\n        if last_exec is not None:\n            current_version = state.get_version(name)\n            consumed_version = last_exec.wait_for_versions.get(name, 0)\n            if current_version <= consumed_version:\n                return False\n    return True\n", "    last_exec = state.node_executions.get(node.name)\n    consumed = last_exec.wait_for_versions if last_exec is not None else {}\n    if any(name not in state.values for name in node.wait_for):\n        return False\n    return any(state.get_version(name) > consumed.get(name, 0) for name in node.wait_for)\n"), {"C17.R1"}),
+    Variant("freshness-all-not-strict", HP, replace_once("    last_exec = state.node_executions.get(node.name)\n\n    for name in node.wait_for:\n        if name not in state.values:\n            return False\n        # On re-execution, check freshness\n        if last_exec is not None:\n            current_version = state.get_version(name)\n            consumed_version = last_exec.wait_for_versions.get(name, 0)\n            if current_version <= consumed_version:\n                return False\n    return True\n", "    last_exec = state.node_executions.get(node.name)\n    consumed = last_exec.wait_for_versions if last_exec is not None else {}\n    if not all(name in state.values for name in node.wait_for):\n        return False\n    return all(state.get_version(name) >= consumed.get(name, 0) for name in node.wait_for)\n"), {"C17.R1"}),
 ]
